@@ -92,7 +92,10 @@ class C06(Prop):
             _, _, c2 = convert(out)
             return {"before": ac.canon_ast(c1.program()["body"]), "after": ac.canon_ast(c2.program()["body"])}
         try:
-            snaxrun.parse(case["src"]).verify()
+            _m = snaxrun.parse(case["src"])
+            _m.verify()
+            if not ac.well_formed_regions(_m):
+                return {"invalid_input": "region without matching yield"}
         except Exception as e:
             return {"invalid_input": type(e).__name__}
         pre, log, out = self._run(case)
@@ -100,7 +103,7 @@ class C06(Prop):
         progs = []
         for t in irs:
             try:
-                _, _, c = convert(t)
+                _, _, c = convert(t, carried=False)
             except ac.Unsupported as e:
                 return {"unmodelled": str(e), "n_steps": len(log), "kinds": ["oracle-only"], "d26_steps": loop_steps_with_other_setups(log)}
             progs.append({"prog": c.program(), "points": ac.real_inference_at_points(c)})
